@@ -39,7 +39,7 @@ def gen_case(rnd, cfg, n_blocks, p_mut, cats, deep=None, **opts):
     from vf import build
     opts = dict(opts)
     mix = opts.pop("dts_mix", None)
-    p_twin = opts.pop("p_twin", 0.12)
+    p_twin = opts.pop("p_twin", 0.0)           # twins are requested by the full-validation checks (drive), not by other users
     if mix:
         opts["dts"] = mix[rnd.randrange(len(mix))]        # None = the default spread (1 s .. 10^6 s)
     if deep is None:
@@ -74,7 +74,7 @@ def gen_case(rnd, cfg, n_blocks, p_mut, cats, deep=None, **opts):
         gen.commit(op, fees)
         if rnd.random() < p_twin:
             # the header of the block just offered, carried by an edited transaction list (same id, different content)
-            ops.append({"label": op["label"] + "~", "parent": op["parent"], "twin_of": op["label"], "mut": "twin",
+            ops.append({"label": op["label"] + "~", "parent": op["parent"], "twin_of": op["label"], "mut": "twin", "txs": [], "miner": op["miner"],
                         "edit": rnd.choice(["reward_big", "reward_second_output", "drop_last", "dup_last", "foreign", "swap"]),
                         "form": "bytes" if rnd.random() < 0.5 else "obj"})
     out = {"cfg": list(cfg), "ops": ops}
@@ -306,10 +306,10 @@ def drive(res, seed_, n_hist, tier, focus, cats, pid, n_blocks=(6, 14), p_mut=0.
             if deep_vlq_edge and (dd["H"] < 64 + 60 or 8192 <= dd["H"] < 16384 or (1 << 20) <= dd["H"] < (1 << 21)):
                 dd["vlq_edge"] = True
                 dd["special"] = {str((dd["H"] // R.REAL_PERIOD) * R.REAL_PERIOD - (R.REAL_PERIOD if (dd["H"] // R.REAL_PERIOD) else 0)): dd["tip_ts"] - R.REAL_TIMESPAN}
-            case = gen_case(rnd, CFGS[3], min(nb, 8), p_mut, cats, deep=dd, **opts)
+            case = gen_case(rnd, CFGS[3], min(nb, 8), p_mut, cats, deep=dd, **dict({"p_twin": 0.12}, **opts))
             res.count("deep_histories")
         else:
-            case = gen_case(rnd, cfg, nb, p_mut, cats, **opts)
+            case = gen_case(rnd, cfg, nb, p_mut, cats, **dict({"p_twin": 0.12}, **opts))
         run = Run(case, focus)
         try:
             fails = run.execute()
